@@ -180,3 +180,91 @@ Definition w_closed : ir :=
         (L "as_numpy", cg (L "convert to numpy.") (L "bool") (VBool true));
         (L "opt", cg (L "an optional one.") (L "Optional[int]") (VInt (-3)%Z))]
        FNone None.
+
+(* ================================================================== *)
+(* the function and method kinds (added with props/C03Ext.v): all seven kinds                                        *)
+(* ================================================================== *)
+From DT Require C03Spec C03DocLinkDefs.
+
+(* conv_function / conv_method = the composition C03_partial_closed is about:
+     text = to_docstring(...) as emit.function calls it (C03DocLinkDefs.function_docstring_text),
+     d    = parse.docstring(cleandoc(text)...) as parse.function calls it (C03DocLinkDefs.function_docstring_ir),
+     C03Spec.round_trip_fn = EmitAst.emit_function (function_name f), C03Spec.reparse_stmt (ast.unparse / ast.parse),
+                             ParseSig.parse_function with d.
+   emit_default_doc is off (the API default of emit.function; with it on the sentence is kept in the prose: a finding
+   class of C03). *)
+Record fenv : Type := mkFE {
+  fe_inline : bool;            (* emit.function: inline_types *)
+  fe_kwonly : bool;            (* emit.function: emit_as_kwonlyargs *)
+  fe_indent : nat;             (* emit.function: indent_level *)
+  fe_sep_tab : bool;           (* emit.function: emit_separating_tab *)
+  fe_ww : bool                 (* emit.function: word_wrap *)
+}.
+
+(* the API defaults of emit.function *)
+Definition default_fenv : fenv := mkFE true true 2 true true.
+
+Definition fn_opts (o : cenv) (f : fenv) (kind : str) : C03Spec.fopts :=
+  C03Spec.mkFO kind (fe_inline f) (fe_kwonly f) (fe_indent f) (fe_sep_tab f) false (fe_ww f) (ce_pt o).
+
+Definition conv_fn (o : cenv) (f : fenv) (kind : str) (i : ir) : outcome ir :=
+  do text <- C03DocLinkDefs.function_docstring_text (ce_w o) (fn_opts o f kind) i;
+  do d <- C03DocLinkDefs.function_docstring_ir text;
+  C03Spec.round_trip_fn (fn_opts o f kind) i (Ok text) (Some d).
+
+Definition kind_static : str := L "static".
+Definition kind_self : str := L "self".
+
+Definition conv_function (o : cenv) (f : fenv) : ir -> outcome ir := conv_fn o f kind_static.
+Definition conv_method (o : cenv) (f : fenv) : ir -> outcome ir := conv_fn o f kind_self.
+
+Definition conv_model7 (o : cenv) (f : fenv) (k : kind) (i : ir) : outcome ir :=
+  match k with
+  | KFunction => conv_function o f i
+  | KMethod => conv_method o f i
+  | _ => conv_model o k i
+  end.
+
+(* the function the emitter writes is named f (C03Spec.fname); the argparse function must have another name, or
+   emit.function would splice the carried  return argument_parser  into f *)
+Definition env_ok7 (o : cenv) : bool := env_ok o && negb (str_eqb (ce_fn o) C03Spec.fname).
+
+(* a carried body, if any, does not come from a function named f *)
+Definition internal_ok7 (i : ir) : bool :=
+  match ir_internal i with
+  | None => true
+  | Some it =>
+    match in_body it with
+    | [] => true
+    | _ => match in_from_name it with Has n => negb (str_eqb n C03Spec.fname) | _ => false end
+    end
+  end.
+
+(* what every closed conversion looks at: summary and parameters *)
+Definition core_view (i : ir) : ir := mkIR FNone FNone (ir_doc i) (ir_params i) FNone None.
+
+Definition fn_guard (o : cenv) (f : fenv) (kind : str) (i : ir) : bool :=
+  C03Spec.guard_C03 (fn_opts o f kind) (core_view i)
+  && C03DocLinkDefs.doc_link_ok (ce_w o) (fn_opts o f kind) (core_view i).
+
+(* the seven-kind domain: the five-kind one, plus the C03 guard and its docstring side condition for both kinds *)
+Definition closed_dom7 (o : cenv) (f : fenv) (i : ir) : bool :=
+  closed_dom o i && internal_ok7 i && fn_guard o f kind_static i && fn_guard o f kind_self i.
+
+(* C08 for all seven kinds *)
+Definition emit_model7 (o : cenv) (f : fenv) (k : kind) (i : ir) : outcome artefact :=
+  match k with
+  | KFunction =>
+    do text <- C03DocLinkDefs.function_docstring_text (ce_w o) (fn_opts o f kind_static) i;
+    do s <- C03Spec.emit_fn (fn_opts o f kind_static) i (Ok text); Ok (AStmt s)
+  | KMethod =>
+    do text <- C03DocLinkDefs.function_docstring_text (ce_w o) (fn_opts o f kind_self) i;
+    do s <- C03Spec.emit_fn (fn_opts o f kind_self) i (Ok text); Ok (AStmt s)
+  | _ => emit_model o k i
+  end.
+
+Definition C08_at7 (o : cenv) (f : fenv) (k : kind) (i : ir) : Prop :=
+  exists t1 i1 t2 i2 t3,
+    emit_model7 o f k i = Ok t1 /\ conv_model7 o f k i = Ok i1
+    /\ emit_model7 o f k i1 = Ok t2 /\ conv_model7 o f k i1 = Ok i2
+    /\ emit_model7 o f k i2 = Ok t3 /\ t2 = t3.
